@@ -7,6 +7,7 @@
    direction are not touched, and that the result is in the box under exact comparisons.
    The first-local-minimiser clause is a statement about real numbers: it is proved on the exact-rational model (C08.v). *)
 From Coq Require Import List Bool Arith Sorted Floats.PrimFloat.
+From LBFGSB Require Generated.Base.
 From LBFGSB Require Import Base.FloatOrd Model.FloatVec Model.FCauchy Proofs.DriverBox Proofs.FCauchyFloat Proofs.FCauchyProofs.
 Import ListNotations.
 
@@ -54,6 +55,47 @@ Section C08_float.
   Proof. split; [apply fgcp_length_xcp|apply fgcp_length_c]. Qed.
 End C08_float.
 
+(* ---------------------------------------------------------------------------------------------- *)
+(* TRANSLATION TIE: the head of get_cauchy_point - the breakpoints t (two masked assignments), the direction d and the ordered
+   breakpoint indices  np.argsort(t, kind="stable") filtered by t[sorted] > 0  - is translated from the NumPy source on every
+   run (Generated/Base.cauchy_head) and proved equal to the definitions of the binary64 model.  The ordering line is where the
+   pinned tree had its defect D1 (the mask applied in unsorted order): that form does not satisfy this theorem. *)
+Module B := LBFGSB.Generated.Base.
+
+Lemma head_breakpoints : forall x g lb ub : vec, length g = length x -> length lb = length x -> length ub = length x ->
+  let t_0 := List.map (fun _ => 0%float) g in
+  let mask_0 := List.map (fun e_ => negb (eqb e_ 0%float)) g in
+  B.bset (List.map (fun e_ => eqb e_ 0%float) g) infinity
+    (B.bscatter mask_0 (B.bwhere (List.map (fun e_ => ltb e_ 0%float) (B.bgather mask_0 g))
+                          (vmap2 div (B.bgather mask_0 (vsub x ub)) (B.bgather mask_0 g))
+                          (vmap2 div (B.bgather mask_0 (vsub x lb)) (B.bgather mask_0 g))) t_0)
+  = breakpoints x g lb ub.
+Proof.
+  induction x as [|xi x IH]; intros g lb ub Hg Hl Hu; destruct g as [|gi g]; destruct lb as [|l lb]; destruct ub as [|u ub]; try discriminate; [reflexivity|].
+  injection Hg as Hg. injection Hl as Hl. injection Hu as Hu. specialize (IH g lb ub Hg Hl Hu). cbv zeta in IH |- *.
+  cbn [List.map breakpoints vsub vmap2 B.bgather]. unfold bp.
+  destruct (eqb gi 0) eqn:E0; cbn [negb B.bgather B.bscatter B.bset].
+  - f_equal. exact IH.
+  - simpl. f_equal. exact IH.
+Qed.
+
+Lemma head_direction : forall t g : vec,
+  B.bwhere_s (List.map (fun e_ => eqb e_ 0%float) t) 0%float (List.map opp g) = dir0 t g.
+Proof.
+  unfold dir0. induction t as [|ti t IH]; intros g; destruct g as [|gi g]; cbn; try reflexivity. f_equal. apply IH.
+Qed.
+
+Lemma head_filter : forall (t : vec) (idx : list nat),
+  B.bgather_idx (List.map (fun e_ => ltb 0%float e_) (List.map (fun i_ => List.nth i_ t nan) idx)) idx = filter (fun i => ltb 0 (tnth t i)) idx.
+Proof. intros t. induction idx as [|i idx IH]; cbn; [reflexivity|]. unfold tnth at 1. destruct (ltb 0 (nth i t nan)); [f_equal|]; exact IH. Qed.
+
+Theorem C08f_head_from_source : forall x g lb ub : vec, length g = length x -> length lb = length x -> length ub = length x ->
+  B.cauchy_head x g lb ub = (breakpoints x g lb ub, dir0 (breakpoints x g lb ub) g, sorted_pos (breakpoints x g lb ub)).
+Proof.
+  intros x g lb ub Hg Hl Hu. unfold B.cauchy_head. cbv zeta.
+  rewrite (head_breakpoints x g lb ub Hg Hl Hu), head_direction, head_filter. reflexivity.
+Qed.
+
 (* what is NOT true in binary64 (witnesses by computation): a variable with g_i = 0 has t_i = inf > 0 and IS taken by the loop
    (it is "fixed" without being assigned); a NaN gradient component gives a NaN component of the Cauchy point *)
 Theorem C08f_zero_gradient_is_taken_by_the_loop :
@@ -61,6 +103,7 @@ Theorem C08f_zero_gradient_is_taken_by_the_loop :
   r_fixed r = [0] /\ vbits (r_xcp r) [0%float] = true /\ r_found r = false.
 Proof. exact zero_gradient_is_fixed. Qed.
 
+Print Assumptions C08f_head_from_source.
 Print Assumptions C08f_feasible.
 Print Assumptions C08f_sorted_breakpoints.
 Print Assumptions C08f_fixed_prefix.
